@@ -10,8 +10,9 @@ import Kanzi.Proofs.BlockGen
 namespace Kanzi.BlockGen
 open Kanzi.Bits Kanzi.TrSmall Kanzi.Block
 
-/-- the configuration of a NONE / NONE stream -/
-def noneCfg (ck : Nat) : Cfg := ⟨ck, [nullTr], noneEnt, false⟩
+/-- the configuration of a NONE / NONE stream (no `blockSize` entry: the bound of fix F43 on the
+post-transform length is 2^30, which a block of at most 2^30 bytes through the NONE sequence never exceeds) -/
+def noneCfg (ck : Nat) : Cfg := ⟨ck, [nullTr], noneEnt, false, none⟩
 
 /-- error classes of the generic decoder seen through the classes of `Kanzi.Block` (both "the entropy
 decoder ran out of bits" and "the inverse transform failed" are ERR_PROCESS_BLOCK, like `eos`) -/
@@ -35,16 +36,22 @@ theorem mode_none_byte : ∀ d, d < 4 →
     ((0 ||| ((d &&& 3) <<< 5)) ||| (0x7F >>> 4)) % 256 = 0 ||| ((d &&& 3) <<< 5) ||| (0x7F >>> 4) := by decide
 
 theorem encodeWith_none (copy : Bool) (ck sum : Nat) (data : List Nat) (h0 : 0 < data.length)
-    (h32 : data.length < 2 ^ 32) :
-    encodeWith copy [nullTr] noneEnt (ckWidth ck) sum data = .ok
+    (h30 : data.length ≤ 2 ^ 30) :
+    encodeWith copy [nullTr] noneEnt (ckWidth ck) sum none data = .ok
       (natBits ((if copy then 0x80 else 0) ||| (((dataSizeOf data.length - 1) &&& 3) <<< 5) |||
           (noneSkipFlags >>> 4)) 8 ++
         natBits data.length (8 * dataSizeOf data.length) ++ natBits sum (ckWidth ck) ++ ofBytes data) := by
-  have hf := seqForward_null data h0
+  have h32 : data.length < 2 ^ 32 := by omega
+  have hf : fallback none (seqMaxLen [nullTr] data.length) data
+      (seqForward (fwdStages [nullTr] data.length) data) = (data, 0x7F) := by
+    unfold fallback
+    have hm : maxLengthOf none = 2 ^ 30 := rfl
+    rw [seqMaxLen_null, hm, if_neg (by omega)]
+    exact seqForward_null data h0
   have he : noneEnt.enc data = some (ofBytes data) := by
     show some (EntSmall.nullEncode data) = _
     rw [EntSmall.nullEncode_eq]
-  have henc := encodeWith_eq copy [nullTr] noneEnt (ckWidth ck) sum data (ofBytes data)
+  have henc := encodeWith_eq copy [nullTr] noneEnt (ckWidth ck) sum none data (ofBytes data)
     (by rw [hf]; exact h32) (by rw [hf]; exact he)
   rw [hf] at henc
   rw [henc]
@@ -62,19 +69,19 @@ theorem isCopy_none (ck : Nat) (data : List Nat) : isCopy (noneCfg ck) data = de
   simp [isCopy, noneCfg]
 
 /-- the generic encoder on a NONE / NONE stream is `encodeNone` -/
-theorem encodeTaskGen_none (ck : Nat) (data : List Nat) (h0 : 0 < data.length) (h32 : data.length < 2 ^ 32) :
+theorem encodeTaskGen_none (ck : Nat) (data : List Nat) (h0 : 0 < data.length) (h30 : data.length ≤ 2 ^ 30) :
     encodeTaskGen (noneCfg ck) data = .ok (encodeNone ck data) := by
   unfold encodeTaskGen
   rw [isCopy_none]
   unfold encodeNone encodeNoneWith modeByte
   by_cases h : data.length ≤ 15
   · rw [if_pos (by simpa using h)]
-    show encodeWith true [nullTr] noneEnt (ckWidth ck) (checksum ck data) data = _
-    rw [encodeWith_none true ck _ data h0 h32, if_pos h]
+    show encodeWith true [nullTr] noneEnt (ckWidth ck) (checksum ck data) none data = _
+    rw [encodeWith_none true ck _ data h0 h30, if_pos h]
     simp only [if_true]
   · rw [if_neg (by simpa using h)]
-    show encodeWith false [nullTr] noneEnt (ckWidth ck) (checksum ck data) data = _
-    rw [encodeWith_none false ck _ data h0 h32, if_neg h]
+    show encodeWith false [nullTr] noneEnt (ckWidth ck) (checksum ck data) none data = _
+    rw [encodeWith_none false ck _ data h0 h30, if_neg h]
     simp only [Bool.false_eq_true, if_false]
 
 /-! ### bytes of a bit string -/
